@@ -157,6 +157,13 @@ def opWC (args obs : List String) : Option DecOut :=
       (if closed && !reverted then [] else ["C15 Closed() is false after closing or reverted to false"]) ++
       (if maxms ≤ 150 + 1500 then [] else [s!"C15 a close call took {maxms} ms with a 150 ms close deadline"]) ++
       (if lres == "hang" then ["C15 Listen did not return after the connection was closed"] else []) ++
+      -- Listen's result: nil after a normal closing handshake, the error after any other peer closure or a transport failure
+      (if listen && scen == "closers" && peer == "first1001" && lres != "close1001" then
+         [s!"C15 Listen returned {lres} after the peer closed with code 1001 (the close error is expected)"] else []) ++
+      (if listen && scen == "closers" && peer == "sever" && lres == "nil" then
+         ["C15 Listen returned nil after a transport failure"] else []) ++
+      (if listen && scen == "closers" && (peer == "echo" || peer == "silent" || peer == "silentslow" || peer == "first1000") && lres != "nil" then
+         [s!"C15 Listen returned {lres} after a normal closure (nil is expected)"] else []) ++
       (if leak == 0 then [] else [s!"C15 {leak} reader goroutine(s) of the library still alive after the connection was closed and every call returned"]) ++
       (if scen == "listenclose" && extra != "already" then
          [s!"C16 a Listen call issued while a Close was waiting for the peer was not refused ({extra}): a second reader"] else []) ++
@@ -172,7 +179,7 @@ def opWC (args obs : List String) : Option DecOut :=
     let internalWins := scen != "errwriters" && listen && (peer == "first1000" || peer == "first1001" || peer == "sever")
     let winner :=
       if peer == "echo" then "nil"
-      else if peer == "silent" then (if listen then "deadline" else "nil")
+      else if peer == "silent" || peer == "silentslow" then (if listen then "deadline" else "nil")
       else if peer == "writefail" then "other"
       else "nil"
     let nClosers := if scen == "writers" then 2 else if scen == "relisten" || scen == "listeners" || scen == "handler" || scen == "errwriters" || scen == "listenclose" then 1 else n
